@@ -146,20 +146,13 @@ func (ms *Modules) resolveIdentities() []error {
 	// we can look them up based on the 'real' prefix of the module and the
 	// name of the identity.
 	for _, mod := range ms.Modules {
-		for _, i := range mod.Identities() {
-			keyName, r := newResolvedIdentity(mod, i)
-			ms.typeDict.identities.dict[keyName] = *r
-		}
-
-		// Hoist up all identities in our included submodules.
-		// We could just do a range on ms.SubModules, but that
-		// might process a submodule that no module included.
-		for _, in := range mod.Include {
-			if in.Module == nil {
-				continue
-			}
-			for _, i := range in.Module.Identities() {
-				keyName, r := newResolvedIdentity(in.Module, i)
+		// Together with the identities of mod itself, hoist up all
+		// identities in the submodules it includes, directly or through
+		// other submodules.  We could just do a range on ms.SubModules,
+		// but that might process a submodule that no module included.
+		for _, m := range wholeModule(mod) {
+			for _, i := range m.Identities() {
+				keyName, r := newResolvedIdentity(m, i)
 				ms.typeDict.identities.dict[keyName] = *r
 			}
 		}
